@@ -140,13 +140,13 @@ func checkDecoderSlots(r *Report, rule string) {
 		}
 		n++
 		name := T.Obj().Name()
-		sts := P.receiverStores(D)
-		if len(sts) != 1 {
-			r.ob(rule, name+":stored-value", D, nil, "the decoder stores exactly one whole value").fail(fmt.Sprintf("%d stores to the receiver", len(sts)))
+		sts := P.receiverWrites(D)
+		if len(sts) != 1 || !sts[0].complete {
+			r.ob(rule, name+":stored-value", D, nil, "the decoder stores exactly one whole value").fail(fmt.Sprintf("%d assignments to the receiver (a field-wise one must cover every field)", len(sts)))
 			continue
 		}
 		st := sts[0]
-		V := P.terms.of(st.Val)
+		V := P.headersThroughHelper(st.val)
 		type slot struct{ field, wire string }
 		slots := []slot{{"Headers.RawProtected", "Protected"}, {"Headers.RawUnprotected", "Unprotected"}}
 		stt := T.Underlying().(*types.Struct)
@@ -164,7 +164,7 @@ func checkDecoderSlots(r *Report, rule string) {
 				v = projectField(v, f)
 			}
 			ok := v.Op == "field" && v.S == sl.wire && v.Args[0].Op == "mod" && v.Args[0].Args[0].Op == "call" && v.Args[0].Args[0].S == "invoke:cbor.DecMode.Unmarshal"
-			r.ob(rule, name+":field:"+sl.field, st.Parent(), st, "stored "+sl.field+" is the decoded wire struct's "+sl.wire+" slot").check(ok, truncate(v.String(), 100), "stored "+sl.field+" = "+truncate(v.String(), 200))
+			r.ob(rule, name+":field:"+sl.field, st.fn, st.at, "stored "+sl.field+" is the decoded wire struct's "+sl.wire+" slot").check(ok, truncate(v.String(), 100), "stored "+sl.field+" = "+truncate(v.String(), 200))
 		}
 	}
 	r.floor(rule, n, 5, "structure decoders")
@@ -328,4 +328,18 @@ func checkEncodersRefuseEmptySignature(r *Report, rule string) {
 			r.ob(rule, shortFn(fn)+":nonempty-signature:"+exitID(P, fn, x), fn, x.ret, "encoder refuses an empty signature").check(exitFacts(P, x).holdsNonEmpty(sg), "fact len(*$0.Signature)!=0", "a non-failure exit of the encoder is reachable with an empty signature")
 		}
 	}
+}
+
+// headersThroughHelper: when the Headers of a stored value are result 0 of an
+// in-package helper with a single delivered value, that value (in the
+// caller's terms) replaces the call so that the raw fields can be read off.
+func (P *Prog) headersThroughHelper(V *Term) *Term {
+	HV := projectField(V, "Headers")
+	if !(HV.Op == "res" && HV.S == "0" && HV.Args[0].Op == "call") {
+		return V
+	}
+	if r := P.expandOuter(HV); r != HV && !r.eq(HV) {
+		return updatePath(V, []string{"Headers"}, r)
+	}
+	return V
 }
